@@ -99,26 +99,34 @@ FieldOwners(rest, alt, isResize) ==
   \cup (IF isResize /\ rest \cap {"top", "bottom"} # {} THEN {"C05", "C06"} ELSE {})
   \cup (IF isResize /\ rest \cap {"buf.lines", "col", "row", "pw", "buf.cols", "buf.rows"} # {} THEN (IF alt THEN {"C16"} ELSE {"C10"}) ELSE {})
   \cup (IF isResize /\ rest \cap {"cols", "rows"} # {} THEN {"C02"} ELSE {})
+(* Components the properties leave free are not compared by equality: the dirty   *)
+(* flags / changed-line set (C15 demands soundness only), the trim_needed flags    *)
+(* and the moment of the lazy trim (C13 demands the bound, C14 that nothing is     *)
+(* lost).  So the terminal is compared with the handed-out lines put back in       *)
+(* front of lines(); when the caller dropped them unread, the shorter lines() must *)
+(* be a suffix of the other.                                                       *)
+Normal(t, dr) == [t EXCEPT !.buf.lines = dr \o @, !.buf.trim = FALSE, !.other.trim = FALSE, !.dirty = <<>>]
+ViewNormal(t) == [t EXCEPT !.buf.lines = View(t.buf), !.buf.trim = FALSE, !.other.trim = FALSE, !.dirty = <<>>]
 Conformance(ll, what, r, fns, e, own) ==
   LET cur == e.st
-      okT == r.vt.t = cur.t
+      a == IF e.consumed THEN Normal(r.vt.t, r.dr) ELSE ViewNormal(r.vt.t)
+      b == IF e.consumed THEN Normal(cur.t, e.dr) ELSE ViewNormal(cur.t)
+      okSb == e.consumed \/ SuffixOf(cur.t.buf.lines, r.vt.t.buf.lines) \/ SuffixOf(r.vt.t.buf.lines, cur.t.buf.lines)
+      okT == a = b
       okP == r.vt.p = cur.p
-      okCh == r.ch = e.ch
-      okDr == ~e.consumed \/ r.dr = e.dr
-      leaves == IF okT THEN {} ELSE Leaves(r.vt.t, cur.t)
-      rest == leaves \ {"dirty", "buf.trim", "other.trim"}
-      blame ==    (IF "dirty" \in leaves \/ ~okCh THEN {"C15"} ELSE {})
-              \cup (IF leaves \cap {"buf.trim", "other.trim"} # {} THEN {"C13"} ELSE {})
-              \cup (IF rest # {} THEN own \cup FieldOwners(rest, cur.t.alt, what = "rs") ELSE {})
+      leaves == IF okT THEN {} ELSE Leaves(a, b)
+      blame ==    (IF leaves # {} THEN own \cup FieldOwners(leaves, cur.t.alt, what = "rs") ELSE {})
               \cup (IF okP THEN {} ELSE {"C03", "C12"})
-              \cup (IF okDr /\ "buf.lines" \notin leaves THEN {} ELSE {"C06", "C13", "C14"})
+              \cup (IF okSb /\ "buf.lines" \notin leaves THEN {} ELSE {"C06", "C14"})
       detail == " fns=" \o S(FnNames(fns))
                 \o (IF okT THEN "" ELSE " tdiff=" \o S(leaves))
                 \o (IF okP THEN "" ELSE " parser: spec=" \o ToJson(r.vt.p) \o " impl=" \o ToJson(cur.p))
-                \o (IF okCh THEN "" ELSE " changes: spec=" \o S(r.ch) \o " impl=" \o S(e.ch))
-                \o (IF okDr THEN "" ELSE " drained: spec=" \o S(Len(r.dr)) \o " impl=" \o S(Len(e.dr)))
-  IN IF okT /\ okP /\ okCh /\ okDr THEN <<>>
-     ELSE <<Msg("CONF", ll, "what=" \o what \o " owners=" \o S(blame) \o detail)>>
+                \o (IF okSb THEN "" ELSE " scrollback diverges")
+      bookkeeping == r.ch # e.ch \/ r.vt.t.dirty # cur.t.dirty \/ r.vt.t.buf.trim # cur.t.buf.trim
+                     \/ r.vt.t.other.trim # cur.t.other.trim \/ Len(r.dr) # Len(e.dr)
+  IN (IF okT /\ okP /\ okSb THEN <<>> ELSE <<Msg("CONF", ll, "what=" \o what \o " owners=" \o S(blame) \o detail)>>)
+     \o (IF okT /\ okP /\ okSb /\ bookkeeping
+         THEN <<Msg("DRIFT", ll, "bookkeeping differs (changed-line set / trim timing): changes spec=" \o S(r.ch) \o " impl=" \o S(e.ch))>> ELSE <<>>)
 
 Handle(ll, e) ==
   LET k == e.ev IN
